@@ -4,6 +4,7 @@ import Tapeverif.Model.Float
 import Tapeverif.Model.Hash
 import Tapeverif.Model.Ed25519
 import Tapeverif.Model.Auth
+import Tapeverif.Model.Tools
 /-! Line-protocol driver: one request per line on stdin, one reply per line on stdout. -/
 open TV
 
@@ -222,6 +223,15 @@ def handle (line : String) : String :=
       | none => "bad-op"
   | ["SHAKE256", n, h] => match ofHex h, n.toNat? with
       | some b, some k => let r := toHex (Hash.shake256 b k); if r = "" then "-" else r
+      | _, _ => "bad-op"
+  | ["BUILD", "ts_after", ts, v] => match ts.toInt? with
+      | some z => hx (Tools.timestampAfterLock z (v = "1"))
+      | none => "bad-op"
+  | ["BUILD", "ts_before", ts, v] => match ts.toInt? with
+      | some z => hx (Tools.timestampBeforeLock z (v = "1"))
+      | none => "bad-op"
+  | ["BUILD", "ts_between", b, e, v] => match b.toInt?, e.toInt? with
+      | some x, some y => hx (Tools.timestampBetweenLock x y (v = "1"))
       | _, _ => "bad-op"
   | ["RUN", c, ca, sc] => runCmd c ca sc false
   | ["AUTH", c, ca, sc] => runCmd c ca sc true
